@@ -170,14 +170,20 @@ def gen_mixed_pkg(rng, idx):
         via = "configs" if per[k] > 1 or rng.random() < 0.4 else "config"
         for j, pat in enumerate(rng.sample(pats, per[k])):
             mocks.append({"iface": ifaces[k]["name"], "structpat": pat, "opts": dict(base), "via": via})
-    # the differing mock first / in the middle / last (by position in the configuration; the order inside the
-    # generated file is mockery's), and every option differs somewhere in the file
+    # every option is THREE-valued per mock: true, explicit false, or unset at every level (no key; no template-data
+    # at all when all three are unset); effective value of unset = false.  In most files an option is unset for one
+    # mock and true for another (the position of either in the generated file is mockery's; both orders occur).
     for key in ("stub-impl", "with-resets", "skip-ensure"):
-        for m in rng.sample(mocks, rng.randint(1, len(mocks) - 1)):
-            m["opts"][key] = not base[key]
+        vals = [rng.choice([True, False, None]) for _ in mocks]
+        if rng.random() < 0.75:
+            i, j = rng.sample(range(len(mocks)), 2)
+            vals[i], vals[j] = None, True
+        for m, v in zip(mocks, vals):
+            m.setdefault("raw", {})[key] = v
     for m in mocks:
         if next(it for it in ifaces if it["name"] == m["iface"])["generic"]:
-            m["opts"]["skip-ensure"] = True          # generic ensure lines do not compile (C01)
+            m["raw"]["skip-ensure"] = True          # generic ensure lines do not compile (C01)
+        m["opts"] = {k: bool(v) for k, v in m["raw"].items()}
     return {"name": "p%d" % idx, "opts": base, "structpat": "Moq%s", "ifaces": ifaces, "level": "mixed", "mocks": mocks}
 
 
@@ -241,11 +247,15 @@ def build_module(ctx, pkgs, tag="mod", driver="drv_matryer", race=False):
                 if ms[0]["via"] == "configs":
                     cfg += ["        configs:"]
                     for m in ms:
-                        cfg += ['          - structname: "%s"' % (m["structpat"] % it["name"]), "            template-data:"]
-                        cfg += ["              %s: %s" % (k, "true" if v else "false") for k, v in sorted(m["opts"].items())]
+                        cfg += ['          - structname: "%s"' % (m["structpat"] % it["name"])]
+                        td = ["%s: %s" % (k, "true" if v else "false") for k, v in sorted(m.get("raw", m["opts"]).items()) if v is not None]
+                        if td:
+                            cfg += ["            template-data:"] + ["              " + x for x in td]
                 else:
-                    cfg += ["        config:", '          structname: "%s"' % (ms[0]["structpat"] % it["name"]), "          template-data:"]
-                    cfg += ["            %s: %s" % (k, "true" if v else "false") for k, v in sorted(ms[0]["opts"].items())]
+                    cfg += ["        config:", '          structname: "%s"' % (ms[0]["structpat"] % it["name"])]
+                    td = ["%s: %s" % (k, "true" if v else "false") for k, v in sorted(ms[0].get("raw", ms[0]["opts"]).items()) if v is not None]
+                    if td:
+                        cfg += ["          template-data:"] + ["            " + x for x in td]
         elif pkg.get("level", "package") == "package":
             cfg += ["      all: true"]
             if td:
@@ -260,6 +270,8 @@ def build_module(ctx, pkgs, tag="mod", driver="drv_matryer", race=False):
         for v, it in views(pkg):
             inst = "[string, int]" if it["generic"] else ""
             reg.append('\tregistry["%s"] = func() any { return &%s.%s%s{} }' % (mock_key(v, it), pkg["name"], struct_name(v, it), inst))
+            if pkg.get("template") == "testify":      # a typed, reflection-free EXPECT() call (reflect's caches synchronise goroutines)
+                reg.append('\texpectFns["%s"] = func(m any) { m.(*%s.%s%s).EXPECT() }' % (mock_key(v, it), pkg["name"], struct_name(v, it), inst))
     reg.append("}")
     (mod / ".mockery.yml").write_text("\n".join(cfg) + "\n")
     (mod / "drv" / "registry.go").write_text("\n".join(reg) + "\n")
@@ -586,7 +598,8 @@ def describe(c, outs=None):
     it = c["iface"]
     d = {"mock": mock_key(c["pkg"], it), "template-data": c["pkg"]["opts"],
          "template-data-set-at": c["pkg"].get("level", "package") + " level" + (" (%s entry)" % c["pkg"]["via"] if c["pkg"].get("via") else ""),
-         "all-mocks-of-the-output-file": [{"struct": m["structpat"] % m["iface"], "interface": m["iface"], "via": m["via"], "template-data": m["opts"]}
+         "all-mocks-of-the-output-file": [{"struct": m["structpat"] % m["iface"], "interface": m["iface"], "via": m["via"], "template-data": m["opts"],
+                                           "template-data-as-written": {k: v for k, v in m.get("raw", m["opts"]).items() if v is not None}}
                                           for m in c["pkg"].get("mocks") or []],
          "interface": [x for x in render_pkg(dict(c["pkg"], ifaces=[it])).split("\n") if x.strip()][3:],
          "history": [json.dumps(o, sort_keys=True) for o in c["hist"]]}
@@ -708,7 +721,7 @@ def check(ctx, only=None):
     distinct = len({json.dumps([mock_term(c["pkg"], c["iface"]), c["hist"]], sort_keys=True) for c, o in zip(cases, outs) if nontrivial(o)})
     hist = {"ops": {}, "outcomes": {}, "params_per_method": {}, "results_per_method": {}, "param_style": {}, "options": {},
             "types": {}, "option_level": {}, "nested_ops_in_installed_funcs": {}, "nested_outcomes": {}, "variadic_methods": 0, "generic_interfaces": 0, "methods": 0, "interfaces": 0}
-    hist["mocks_per_mixed_file"], hist["mixed_via"] = {}, {}
+    hist["mocks_per_mixed_file"], hist["mixed_via"], hist["mixed_option_values"] = {}, {}, {}
     for pkg in pkgs:
         for v, _ in views(pkg):
             key = ",".join(k for k, x in sorted(v["opts"].items()) if x) or "none"
@@ -720,6 +733,11 @@ def check(ctx, only=None):
             hist["mocks_per_mixed_file"][n] = hist["mocks_per_mixed_file"].get(n, 0) + 1
             for m in pkg["mocks"]:
                 hist["mixed_via"][m["via"]] = hist["mixed_via"].get(m["via"], 0) + 1
+                for k, v in m.get("raw", {}).items():
+                    kk = "%s=%s" % (k, "unset" if v is None else str(v).lower())
+                    hist["mixed_option_values"][kk] = hist["mixed_option_values"].get(kk, 0) + 1
+                if m.get("raw") and all(v is None for v in m["raw"].values()):
+                    hist["mixed_option_values"]["no template-data key at all"] = hist["mixed_option_values"].get("no template-data key at all", 0) + 1
         for it in pkg["ifaces"]:
             hist["interfaces"] += 1
             hist["generic_interfaces"] += it["generic"]
